@@ -261,7 +261,12 @@ class Engine(  # pylint:disable=too-few-public-methods
             else:
                 # let pandas transform any acceptable value
                 # into a numpy or pandas dtype.
-                np_or_pd_dtype = pd.api.types.pandas_dtype(data_type)
+                try:
+                    np_or_pd_dtype = pd.api.types.pandas_dtype(data_type)
+                except ValueError as err:
+                    # numpy>=2 raises ValueError (not TypeError) for objects
+                    # that merely expose a ``dtype`` attribute
+                    raise TypeError(str(err)) from err
                 if isinstance(np_or_pd_dtype, np.dtype):
                     # cast alias to platform-agnostic dtype
                     # e.g.: np.intc -> np.int32
